@@ -11,6 +11,7 @@ normalised test with no intervening assignment to a name in that test.
 from __future__ import annotations
 
 import ast
+import itertools
 from dataclasses import dataclass, field
 from typing import Callable, Dict, Iterator, List, Optional, Sequence, Set, Tuple
 
@@ -66,10 +67,34 @@ class Path:
 EventFn = Callable[[ast.AST], Optional[str]]
 
 
+def _eval3(e, facts):
+    """True / False / None (unknown) of a boolean expression over names with known truth values."""
+    if isinstance(e, ast.Constant) and isinstance(e.value, bool):
+        return e.value
+    if isinstance(e, ast.Name):
+        return facts.get(e.id)
+    if isinstance(e, ast.UnaryOp) and isinstance(e.op, ast.Not):
+        v = _eval3(e.operand, facts)
+        return None if v is None else (not v)
+    if isinstance(e, ast.BoolOp):
+        vs = [_eval3(v, facts) for v in e.values]
+        if isinstance(e.op, ast.And):
+            return False if any(v is False for v in vs) else (None if any(v is None for v in vs) else True)
+        return True if any(v is True for v in vs) else (None if any(v is None for v in vs) else False)
+    return None
+
+
+def _pure_bool(e) -> bool:
+    return all(isinstance(x, (ast.BoolOp, ast.UnaryOp, ast.Name, ast.Constant, ast.And, ast.Or, ast.Not, ast.Load)) for x in ast.walk(e))
+
+
 class PathEnumerator:
     def __init__(self, event_fn: EventFn, loop_iters: Sequence[int] = (0, 1), max_paths: int = 200000,
-                 keep_all_ifs: bool = False, exc_edges: bool = True):
+                 keep_all_ifs: bool = False, exc_edges: bool = True, flags: Optional[Dict[str, Callable]] = None):
         self.event_fn = event_fn
+        # flags: {name: label(old, new)} - an assignment `name = <boolean expression over names>` is followed through the facts; an
+        # operand of unknown truth value splits the path (once per value); the label (or None) is recorded as an event
+        self.flags = dict(flags or {})
         self.loop_iters = tuple(loop_iters)
         self.max_paths = max_paths
         self.keep_all_ifs = keep_all_ifs
@@ -289,7 +314,38 @@ class PathEnumerator:
         if isinstance(st, ast.Delete):
             for t in st.targets:
                 names |= names_in(t)
+        # (`flag = flag or converted`: the new value from the facts known BEFORE the assignment, in three-valued logic)
+        pre_val = None
+        if isinstance(st, ast.Assign) and len(st.targets) == 1 and isinstance(st.targets[0], ast.Name) and isinstance(st.value, (ast.BoolOp, ast.UnaryOp, ast.Name)):
+            pre_val = _eval3(st.value, p.facts)
+            fname = st.targets[0].id
+            if fname in self.flags:
+                unknown = sorted({x.id for x in ast.walk(st.value) if isinstance(x, ast.Name) and x.id not in p.facts})
+                if pre_val is None and 0 < len(unknown) <= 2 and _pure_bool(st.value):
+                    # split on the unknown operands
+                    for combo in itertools.product((False, True), repeat=len(unknown)):
+                        q = p.copy()
+                        for nm, val in zip(unknown, combo):
+                            q.facts[nm] = val
+                        new_v = _eval3(st.value, q.facts)
+                        lab2 = self.flags[fname](q.facts.get(fname), new_v)
+                        if lab2 is not None:
+                            q.items.append(Event(lab2, st))
+                        self._invalidate(q, names)
+                        for nm, val in zip(unknown, combo):
+                            if nm != fname:
+                                q.facts[nm] = val
+                        if new_v is not None:
+                            q.facts[fname] = new_v
+                        self._tick()
+                        yield q
+                    return
+                lab2 = self.flags[fname](p.facts.get(fname), pre_val)
+                if lab2 is not None:
+                    p.items.append(Event(lab2, st))
         self._invalidate(p, names)
+        if pre_val is not None:
+            p.facts[st.targets[0].id] = pre_val
         # boolean constant propagation for flags: x = True / False / None-test results
         tname, tval = None, None
         if isinstance(st, ast.Assign) and len(st.targets) == 1 and isinstance(st.targets[0], ast.Name):
